@@ -376,6 +376,17 @@ pub struct Stats {
     pub snapshot_lists_checked: u64,
     pub persist_directory_exact: u64,
     pub flushes_below_level0: u64,
+    pub output_loops_checked: u64,
+    pub grandparent_rule_calls: u64,
+    pub grandparent_rules_checked: u64,
+    pub move_decisions_checked: u64,
+    pub grandparent_rule_stops: u64,
+    pub outputs_closed_by_size: u64,
+    pub manual_ranges_checked: u64,
+    pub manual_rounds_checked: u64,
+    pub manual_rounds_selecting: u64,
+    pub manual_requests_checked: u64,
+    pub manual_max_rounds_of_a_request: u64,
 }
 
 pub struct RunOut {
@@ -480,7 +491,134 @@ fn save_request(req: &str) -> String {
 
 /// Validate the recorded internal transitions against the model's step relation. Returns the
 /// model's level layout after the last event (to chain with the next batch of events).
+/// Manual compaction against the model of Rain/Manual.lean: the deepest level `compact_range` finds,
+/// the levels it then builds requests for, what every round of a request selects and where the
+/// request continues, and the bound on the number of rounds of a request (theorem
+/// C09_manual_rounds_bounded: every round takes at least one file out of the level; files that
+/// flushes and other compactions add to the level meanwhile are counted in).
+pub fn validate_manual(drv: &mut crate::drv::Drv, events: &[Event], obs: &mut Vec<Obs>, stats: &mut Stats, at: usize) {
+    let bound = |k: &Option<Vec<u8>>| k.as_ref().map_or("*".to_string(), |k| hex(k));
+    let ikey = |k: &Option<raindb::verif::IKey>| k.as_ref().map_or("*".to_string(), |k| hex(&k.0));
+    let sig = "c07:manual-compaction-outside-the-verified-model";
+    // (max level, levels requested so far) of the compact_range call in progress
+    let mut range: Option<(usize, Vec<usize>)> = None;
+    // the request in progress: level, files of the level at its first round, files added since, rounds
+    // that selected something, where the model says it continues
+    struct Req {
+        level: usize,
+        first: Option<usize>,
+        added: usize,
+        rounds: usize,
+        next: Option<String>,
+    }
+    let mut req: Option<Req> = None;
+    let close_range = |range: &mut Option<(usize, Vec<usize>)>, obs: &mut Vec<Obs>| {
+        if let Some((max, seen)) = range.take() {
+            let want: Vec<usize> = (0..max).collect();
+            if seen != want {
+                obs.push(Obs { sig: sig.into(), what: format!("compact_range found {max} as the deepest level with overlapping files and then built requests for levels {seen:?}; the model visits {want:?}"), at });
+            }
+        }
+    };
+    for ev in events {
+        match ev {
+            Event::ManualRange { lo, hi, levels, max_level } => {
+                close_range(&mut range, obs);
+                let a = drv.ask(&format!("manual.levels {} {} {}", bound(lo), bound(hi), levels_tok(levels, &BTreeMap::new())));
+                if a == "no-model" {
+                    return;
+                }
+                stats.manual_ranges_checked += 1;
+                if a != max_level.to_string() {
+                    obs.push(Obs { sig: sig.into(), what: format!("compact_range({} .. {}) on {:?}: deepest level with overlapping files {max_level}, the model of has_overlap_in_level gives {a}", bound(lo), bound(hi), brief(levels)), at });
+                }
+                range = Some((*max_level, vec![]));
+                req = None;
+            }
+            Event::ManualRequest { level, .. } => {
+                if let Some((_, seen)) = range.as_mut() {
+                    seen.push(*level);
+                }
+                stats.manual_requests_checked += 1;
+                req = Some(Req { level: *level, first: None, added: 0, rounds: 0, next: None });
+            }
+            Event::Flush { level, size, .. } if *size > 0 => {
+                if let Some(r) = req.as_mut() {
+                    if *level == r.level {
+                        r.added += 1;
+                    }
+                }
+            }
+            Event::TrivialMove { level, .. } => {
+                if let Some(r) = req.as_mut() {
+                    if *level + 1 == r.level {
+                        r.added += 1;
+                    }
+                }
+            }
+            Event::Compaction { level, outputs, manual, .. } => {
+                if let Some(r) = req.as_mut() {
+                    if *level + 1 == r.level && !*manual {
+                        r.added += outputs.len();
+                    }
+                }
+            }
+            Event::ManualRound { level, begin, end, levels, max_file_size, selected, next_begin } => {
+                let sizes: Vec<String> = levels.iter().flatten().map(|f| format!("{}={}", f.number, f.size)).collect();
+                let a = drv.ask(&format!(
+                    "manual.round {max_file_size} {level} {} {} {} {}",
+                    ikey(begin),
+                    ikey(end),
+                    levels_tok(levels, &BTreeMap::new()),
+                    if sizes.is_empty() { "_".to_string() } else { sizes.join(",") }
+                ));
+                if a == "no-model" {
+                    return;
+                }
+                stats.manual_rounds_checked += 1;
+                let nums = |v: &Vec<u64>| if v.is_empty() { "_".to_string() } else { v.iter().map(|n| n.to_string()).collect::<Vec<_>>().join(",") };
+                let real = match (selected, next_begin) {
+                    (Some((i0, i1)), Some(k)) => format!("{} {} {}/{}", nums(i0), nums(i1), hex(&k.0), k.1),
+                    _ => "done".to_string(),
+                };
+                if a != real {
+                    obs.push(Obs { sig: sig.into(), what: format!("round of the manual compaction of level {level}, range {} .. {}, max_file_size {max_file_size}, on {:?}: the database selected [{real}] (level files, parent files, next start), the model of VersionSet::compact_range gives [{a}]", ikey(begin), ikey(end), brief(levels)), at });
+                }
+                if let Some(r) = req.as_mut() {
+                    if r.level == *level {
+                        // the request continues where the previous round said it would
+                        if let (Some(want), Some(b)) = (r.next.as_ref(), begin.as_ref()) {
+                            let got = format!("{}/{}", hex(&b.0), b.1);
+                            if &got != want {
+                                obs.push(Obs { sig: sig.into(), what: format!("manual compaction of level {level}: after a round that ended at {want} the request continues at {got}"), at });
+                            }
+                        }
+                        if r.first.is_none() {
+                            r.first = Some(levels.get(*level).map_or(0, |l| l.len()));
+                        }
+                        if selected.is_some() {
+                            r.rounds += 1;
+                            stats.manual_rounds_selecting += 1;
+                            stats.manual_max_rounds_of_a_request = stats.manual_max_rounds_of_a_request.max(r.rounds as u64);
+                            r.next = real.split(' ').nth(2).map(|x| x.to_string());
+                            let limit = r.first.unwrap_or(0) + r.added;
+                            if r.rounds > limit {
+                                obs.push(Obs { sig: "c09:manual-compaction-makes-no-progress".into(), what: format!("the manual compaction request for level {level} is in its round {} although the level had {} files when it started and {} were added since: every round must take at least one file out of the level (C09_manual_rounds_bounded)", r.rounds, r.first.unwrap_or(0), r.added), at });
+                            }
+                        } else {
+                            req = None;
+                        }
+                    }
+                }
+            }
+            _ => {}
+        }
+    }
+    close_range(&mut range, obs);
+}
+
 pub fn validate_events(drv: &mut crate::drv::Drv, events: &[Event], obs: &mut Vec<Obs>, stats: &mut Stats, at: usize, chain: &mut Option<Vec<Vec<u64>>>) {
+    validate_manual(drv, events, obs, stats, at);
     for ev in events {
         if std::env::var("VERIF_TRACE").is_ok() {
             match ev {
@@ -527,12 +665,66 @@ pub fn validate_events(drv: &mut crate::drv::Drv, events: &[Event], obs: &mut Ve
                 (levels_before, a, "flush")
             }
             Event::TrivialMove { file, level, levels_before } => {
+                // the decision: the model of is_trivial_move must say "move" for this file alone
+                {
+                    let sizes: Vec<String> = levels_before.get(*level + 2).map_or(vec![], |l| l.iter().map(|f| format!("{}={}", f.number, f.size)).collect());
+                    let d = drv.ask(&format!("cut.trivial {} {} {} _ {} {}", levels_tok(levels_before, &BTreeMap::new()), level, file, if sizes.is_empty() { "_".to_string() } else { sizes.join(",") }, MAX_FILE_SIZE.with(|m| m.get())));
+                    if d != "no-model" {
+                        stats.move_decisions_checked += 1;
+                        if d != "true" {
+                            obs.push(Obs { sig: "c07:trivial-move-decision-outside-the-verified-model".into(), what: format!("table {file} was moved from level {level} without merging on {:?}; the model of is_trivial_move (one level file, no parent file, grandparent bytes within 10 x max_file_size = {}) answers {d}", brief(levels_before), MAX_FILE_SIZE.with(|m| m.get())), at });
+                        }
+                    }
+                }
                 request = format!("lsm.move {} {} {}", levels_tok(levels_before, &BTreeMap::new()), file, level);
                 let a = drv.ask(&request);
                 (levels_before, a, "trivial-move")
             }
-            Event::Compaction { level, inputs0, inputs1, smallest_snapshot, last_sequence, levels_before, input_entries, output_entries, .. } => {
+            Event::Compaction { level, inputs0, inputs1, smallest_snapshot, last_sequence, levels_before, input_entries, output_entries, stop_answers, closed_by_size, manual, .. } => {
                 let emap: BTreeMap<u64, Vec<raindb::verif::Entry>> = input_entries.iter().cloned().collect();
+                // an automatic compaction that merged its inputs: the model of is_trivial_move must say
+                // "merge" (no manual request was pending when the results were installed, hence none when
+                // the decision was taken)
+                if !*manual {
+                    let n = |v: &Vec<u64>| if v.is_empty() { "_".to_string() } else { v.iter().map(|n| n.to_string()).collect::<Vec<_>>().join(",") };
+                    let sizes: Vec<String> = levels_before.get(*level + 2).map_or(vec![], |l| l.iter().map(|f| format!("{}={}", f.number, f.size)).collect());
+                    let d = drv.ask(&format!("cut.trivial {} {} {} {} {} {}", levels_tok(levels_before, &BTreeMap::new()), level, n(inputs0), n(inputs1), if sizes.is_empty() { "_".to_string() } else { sizes.join(",") }, MAX_FILE_SIZE.with(|m| m.get())));
+                    if d != "no-model" {
+                        stats.move_decisions_checked += 1;
+                        if d != "false" {
+                            obs.push(Obs { sig: "c07:trivial-move-decision-outside-the-verified-model".into(), what: format!("an automatic compaction of level {level} merged its inputs {:?} + {:?} on {:?}; the model of is_trivial_move answers {d}: the file should have been moved", inputs0, inputs1, brief(levels_before)), at });
+                        }
+                    }
+                }
+                // the output loop of Rain/OutputLoop.lean replayed on this compaction: with the recorded answers
+                // of should_stop_before_key and the outputs the size rule closed as the two cut rules,
+                // the model must ask the grandparent rule exactly as often as the code did (only while
+                // an output is open) and write exactly these outputs
+                {
+                    let n = |v: &Vec<u64>| if v.is_empty() { "_".to_string() } else { v.iter().map(|n| n.to_string()).collect::<Vec<_>>().join(",") };
+                    let outs = if output_entries.is_empty() { "_".to_string() } else { output_entries.iter().map(|(n, es)| format!("{}:{}", n, ents_tok(es))).collect::<Vec<_>>().join(";") };
+                    let answers: String = if stop_answers.is_empty() { "_".to_string() } else { stop_answers.iter().map(|b| if *b { '1' } else { '0' }).collect() };
+                    let a = drv.ask(&format!("cut.run {} {} {} {} {} {} {} {}", levels_tok(levels_before, &emap), level, n(inputs0), n(inputs1), smallest_snapshot, outs, answers, n(closed_by_size)));
+                    if a != "no-model" {
+                        stats.output_loops_checked += 1;
+                        stats.grandparent_rule_calls += stop_answers.len() as u64;
+                        stats.grandparent_rule_stops += stop_answers.iter().filter(|b| **b).count() as u64;
+                        stats.outputs_closed_by_size += closed_by_size.len() as u64;
+                        // the same loop with the MODEL of should_stop_before_key (Rain/Grandparent.lean) as the
+                        // grandparent rule: it must give the recorded answers
+                        let sizes: Vec<String> = levels_before.get(*level + 2).map_or(vec![], |l| l.iter().map(|f| format!("{}={}", f.number, f.size)).collect());
+                        let g = drv.ask(&format!("cut.gp {} {} {} {} {} {} {} {} {} {}", levels_tok(levels_before, &emap), level, n(inputs0), n(inputs1), smallest_snapshot, outs, answers, n(closed_by_size), if sizes.is_empty() { "_".to_string() } else { sizes.join(",") }, MAX_FILE_SIZE.with(|m| m.get())));
+                        if g != "no-model" {
+                            stats.grandparent_rules_checked += 1;
+                            if g != "ok" {
+                                obs.push(Obs { sig: "c07:grandparent-rule-outside-the-verified-model".into(), what: format!("compaction of level {level} (inputs {:?} + {:?}, max_file_size {}): should_stop_before_key answered [{answers}] over its {} calls; the model of the rule on the model's overlapping grandparents does not: {g}", inputs0, inputs1, MAX_FILE_SIZE.with(|m| m.get()), stop_answers.len()), at });
+                            }
+                        }
+                        if a != "ok" {
+                            obs.push(Obs { sig: "c07:compaction-output-loop-outside-the-verified-model".into(), what: format!("compaction of level {level} (inputs {:?} + {:?}, smallest snapshot {smallest_snapshot}): the output loop of the model, run with the recorded answers of should_stop_before_key ({} calls) and the outputs the size rule closed ({:?}), does not reproduce what the code did (outputs with {:?} entries): {a}", inputs0, inputs1, stop_answers.len(), closed_by_size, output_entries.iter().map(|o| o.1.len()).collect::<Vec<_>>()), at });
+                        }
+                    }
+                }
                 let nums = |v: &Vec<u64>| if v.is_empty() { "_".to_string() } else { v.iter().map(|n| n.to_string()).collect::<Vec<_>>().join(",") };
                 let outs = if output_entries.is_empty() {
                     "_".to_string()
@@ -1043,10 +1235,7 @@ pub fn run_history(h: &History, checks: &Checks, fs: &SimFs) -> RunOut {
                     }
                 }
                 Event::Delete { .. } => stats.deletes_of_files += 1,
-                Event::Rotate { .. } => {}
-                Event::Sched { .. } => {}
-                Event::Group { .. } => {}
-                Event::Seek { .. } => {}
+                _ => {}
             }
         }
         stats.max_l0 = stats.max_l0.max(st.levels[0].len());
